@@ -2,7 +2,7 @@
    Property theorems only; every proof is `exact <lemma>` from proof/C01_ServerAuth.v (C01 and C02 share the
    model model/C01_ServerAuth.v).  masq : request -> response is the configured masquerade handler
    (http.NotFound when none is configured): ANY function; a response is status + header list + body. *)
-From Hy Require Import gen.ParamsC01 model.C01_ServerAuth proof.C01_ServerAuth.
+From Hy Require Import gen.ParamsC01 model.C01_ServerAuth proof.C01_ServerAuth proof.C02_Window.
 From Coq Require Import String.
 Local Open Scope N_scope.
 
@@ -61,3 +61,21 @@ Theorem C02_unauth_stream_no_reply : forall cfg masq acts s tr c,
                   step cfg masq s (UdpRecv c addr) = None /\ step cfg masq s (UdpRelay c addr n) = None).
 Proof. exact unauth_stream_no_reply. Qed.
 Print Assumptions C02_unauth_stream_no_reply.
+
+(* While an auth request of connection c is inside Authenticator.Authenticate and the authenticator has not
+   answered (in_auth (s c) = Some r0, in any reachable state), nothing has been accepted on c and c shows nothing
+   but the masquerade: c is unauthenticated with nothing that could reach the outbound; a further auth request on
+   c is not handled at all before the verdict (step = None: it waits for authMutex - in particular it is not
+   answered 233); and every step taken for c other than an accepting verdict - another request, a proxy stream
+   of any frame type, a datagram, a rejecting verdict - leaves c unauthenticated with the gate closed, makes only
+   masquerade responses observable, reaches no outbound, and leaves the call pending unless it is the verdict. *)
+Theorem C02_undecided_auth_reveals_nothing : forall cfg masq acts s tr c r0,
+  run cfg masq init acts = Some (s, tr) -> in_auth (s c) = Some r0 ->
+  (authed (s c) = false /\ gate_closed (s c)) /\
+  (forall r pad, is_auth_req r = true -> step cfg masq s (HttpReq c r pad) = None) /\
+  (forall a s' o, act_conn a = c -> is_accepting_verdict a = false -> step cfg masq s a = Some (s', o) ->
+      authed (s' c) = false /\ gate_closed (s' c) /\ Forall (resp_is_masq masq) o /\
+      (forall x, In x o -> outbound_conn (EObs x) = None) /\
+      (in_auth (s' c) = Some r0 \/ exists id pad, a = AuthVerdict c false id pad)).
+Proof. exact undecided_auth_reveals_nothing. Qed.
+Print Assumptions C02_undecided_auth_reveals_nothing.
